@@ -647,23 +647,43 @@ const ALPHA_EXT: [u8; 27] = [
 ];
 const ALPHA_U16: [u16; 12] = [0x0000, 0x0041, 0xD7FF, 0xD800, 0xDBFF, 0xDC00, 0xDFFF, 0xE000, 0xFFFD, 0xFFFF, 0xFEFF, 0xFFFE];
 
+/// full dump for short inputs; for long ones the length and the neighbourhood of the first non-ASCII byte
+fn fmt8(b: &[u8]) -> String {
+    if b.len() <= 96 {
+        return format!("{b:02x?}");
+    }
+    match b.iter().position(|x| *x >= 0x80) {
+        Some(i) => format!("{} bytes, ASCII except from offset {}: {:02x?} ... (last bytes {:02x?})", b.len(), i, &b[i..(i + 8).min(b.len())], &b[b.len() - 4..]),
+        None => format!("{} ASCII bytes", b.len()),
+    }
+}
+fn fmt16(u: &[u16]) -> String {
+    if u.len() <= 64 {
+        return format!("{u:04x?}");
+    }
+    match u.iter().position(|x| *x >= 0x80) {
+        Some(i) => format!("{} units, ASCII except from offset {}: {:04x?} ...", u.len(), i, &u[i..(i + 6).min(u.len())]),
+        None => format!("{} ASCII units", u.len()),
+    }
+}
+
 fn check_utf8(sink: &Sink, b: &[u8], local: &mut [u64; 8]) {
     let std_r = std::str::from_utf8(b);
-    let Some(l) = guarded(sink, "utf8", || format!("{b:02x?}"), || LeanString::from_utf8(b)) else { return };
+    let Some(l) = guarded(sink, "utf8", || fmt8(b), || LeanString::from_utf8(b)) else { return };
     match (&std_r, &l) {
         (Ok(s), Ok(x)) => {
             if x.as_str() != *s {
-                sink.viol("utf8", format!("{b:02x?}"), format!("from_utf8 text {:?} != {:?}", x.as_str(), s));
+                sink.viol("utf8", fmt8(b), format!("from_utf8 text {:?} != {:?}", x.as_str(), s));
             }
             local[0] += 1;
         }
         (Err(_), Err(_)) => local[1] += 1,
-        _ => sink.viol("utf8", format!("{b:02x?}"), format!("from_utf8 accepts: {} but String::from_utf8 accepts: {}", l.is_ok(), std_r.is_ok())),
+        _ => sink.viol("utf8", fmt8(b), format!("from_utf8 accepts: {} but String::from_utf8 accepts: {}", l.is_ok(), std_r.is_ok())),
     }
-    let Some(lossy) = guarded(sink, "utf8-lossy", || format!("{b:02x?}"), || LeanString::from_utf8_lossy(b)) else { return };
+    let Some(lossy) = guarded(sink, "utf8-lossy", || fmt8(b), || LeanString::from_utf8_lossy(b)) else { return };
     let std_lossy = String::from_utf8_lossy(b);
     if lossy.as_str() != std_lossy.as_ref() {
-        sink.viol("utf8-lossy", format!("{b:02x?}"), format!("from_utf8_lossy {:?} != {:?}", lossy.as_str(), std_lossy));
+        sink.viol("utf8-lossy", fmt8(b), format!("from_utf8_lossy {:?} != {:?}", lossy.as_str(), std_lossy));
     }
     if lossy.len() > b.len() {
         local[2] += 1; // output outgrew the capacity guessed from the input length
@@ -675,21 +695,21 @@ fn check_utf8(sink: &Sink, b: &[u8], local: &mut [u64; 8]) {
 
 fn check_utf16(sink: &Sink, u: &[u16], local: &mut [u64; 8]) {
     let std_r = String::from_utf16(u);
-    let Some(l) = guarded(sink, "utf16", || format!("{u:04x?}"), || LeanString::from_utf16(u)) else { return };
+    let Some(l) = guarded(sink, "utf16", || fmt16(u), || LeanString::from_utf16(u)) else { return };
     match (&std_r, &l) {
         (Ok(s), Ok(x)) => {
             if x.as_str() != s.as_str() {
-                sink.viol("utf16", format!("{u:04x?}"), format!("from_utf16 text {:?} != {:?}", x.as_str(), s));
+                sink.viol("utf16", fmt16(u), format!("from_utf16 text {:?} != {:?}", x.as_str(), s));
             }
             local[4] += 1;
         }
         (Err(_), Err(_)) => local[5] += 1,
-        _ => sink.viol("utf16", format!("{u:04x?}"), format!("from_utf16 accepts: {} but String::from_utf16 accepts: {}", l.is_ok(), std_r.is_ok())),
+        _ => sink.viol("utf16", fmt16(u), format!("from_utf16 accepts: {} but String::from_utf16 accepts: {}", l.is_ok(), std_r.is_ok())),
     }
     let Some(lossy) = guarded(sink, "utf16-lossy", || format!("{} units: {:04x?}...", u.len(), &u[..u.len().min(12)]), || LeanString::from_utf16_lossy(u)) else { return };
     let std_lossy = String::from_utf16_lossy(u);
     if lossy.as_str() != std_lossy {
-        sink.viol("utf16-lossy", format!("{u:04x?}"), format!("from_utf16_lossy {:?} != {:?}", lossy.as_str(), std_lossy));
+        sink.viol("utf16-lossy", fmt16(u), format!("from_utf16_lossy {:?} != {:?}", lossy.as_str(), std_lossy));
     }
     if lossy.is_heap_allocated() {
         local[6] += 1;
@@ -817,6 +837,46 @@ pub fn engine_utf(a: &Args) {
         sink.merge_cells(m);
     });
     scope.push(format!("position sweep: chars of width 1-4 (valid, followed by a broken unit, truncated) after every prefix length 0..={pos_max} of 1-, 2- and 3-byte prefix chars, UTF-8 and UTF-16"));
+    // block edges: decoders that work in blocks (4 KiB ... 1 MiB) must not split, skip or mis-validate a
+    // character that straddles a cut; ASCII filler, one character (or broken sequence) at every offset
+    // from 5 before to 2 after each power of two, with and without a second block behind it
+    let edge_max = a.num("edge-max", 1 << 20) as usize;
+    let sizes: Vec<usize> = [4096usize, 8192, 16384, 32768, 65536, 131072, 262144, 1 << 20].into_iter().filter(|b| *b <= edge_max).collect();
+    let n_edge = std::sync::atomic::AtomicU64::new(0);
+    par_ranges(nthreads, sizes.len() as u64 * 8, &|lo, hi| {
+        let mut local = [0u64; 8];
+        for k in lo..hi {
+            let bsize = sizes[(k / 8) as usize];
+            let p = bsize - 5 + (k % 8) as usize;
+            let tails: [&[u8]; 7] = ["é".as_bytes(), "€".as_bytes(), "𝄞".as_bytes(), &[0xF0, 0x9F, 0xA6], &[0x80], &[0xED, 0xA0, 0x80], &[0xF4, 0x90, 0x80, 0x80]];
+            for tail in tails {
+                for q in [2usize, bsize + 7] {
+                    let mut b = vec![b'a'; p];
+                    b.extend_from_slice(tail);
+                    b.extend(std::iter::repeat_n(b'b', q));
+                    check_utf8(&sink, &b, &mut local);
+                    n_edge.fetch_add(1, Relaxed);
+                }
+            }
+            let tails16: [&[u16]; 5] = [&[0x20AC], &[0xD834, 0xDD1E], &[0xD834], &[0xDD1E], &[0xDBFF, 0xDFFF]];
+            for tail in tails16 {
+                for q in [2usize, bsize + 7] {
+                    let mut u = vec![0x61u16; p];
+                    u.extend_from_slice(tail);
+                    u.extend(std::iter::repeat_n(0x62u16, q));
+                    check_utf16(&sink, &u, &mut local);
+                    n_edge.fetch_add(1, Relaxed);
+                }
+            }
+        }
+        let mut m = BTreeMap::new();
+        m.insert("block_edge_inputs".to_string(), (hi - lo) * (7 + 5) * 2);
+        sink.merge_cells(m);
+    });
+    sink.evals.fetch_add(n_edge.load(Relaxed), Relaxed);
+    if !sizes.is_empty() {
+        scope.push(format!("block edges: a 2/3/4-byte char, a truncated 4-byte char, a stray continuation byte, an encoded surrogate and F4 90.. (UTF-16: BMP char, pair, lone lead, lone trail, last pair) at every offset from B-5 to B+2 for B in {sizes:?}, followed by 2 or B+7 more units"));
+    }
     // long nearly-valid inputs
     let n_long = a.num("long", 100_000);
     let seed0 = r.next();
